@@ -399,7 +399,7 @@ package yqlib
 //@ func (*Context).ChildContext
 //@   props C08 C10 C18 C11
 //@   requires n != nil
-//@   ensures result.MatchingNodes == results && result.DontAutoCreate == n.DontAutoCreate && result.datetimeLayout == n.datetimeLayout
+//@   ensures @the-child-keeps-the-mode-and-gets-the-given-inputs {C08,C01,C10,C18} result.MatchingNodes == results && result.DontAutoCreate == n.DontAutoCreate && result.datetimeLayout == n.datetimeLayout
 //@   ensures @variables-in-a-map-of-its-own result.Variables != nil && fresh(result.Variables)
 
 //@ func (*Context).SingleReadonlyChildContext
